@@ -2,7 +2,7 @@
    description, loads it through collada.Collada and records the exception class or the
    decoded skin / morph; [case_ok] runs the model on the same description and compares. *)
 From Coq Require Import List Bool Arith ZArith NArith.
-From PC Require Import Base.Outcome Base.Mat Model.Skin.
+From PC Require Import Base.Atoms Base.Outcome Base.Xml Base.Mat Model.Skin Model.SkinXml.
 Import ListNotations.
 
 Definition lZ_eqb (a b : list Z) : bool := if list_eq_dec Z.eq_dec a b then true else false.
@@ -27,7 +27,10 @@ Inductive case :=
 | SkinCase (d : skin_desc) (code : nat) (obs : option skin_view)
 | MorphCase (d : morph_desc) (code : nat) (obs : option (N * list (N * Z)))
   (* nested node matrices (outermost first), bind shape matrix, observed BoundSkin geometry matrix *)
-| BoundCase (path : list (list Z)) (bind : list Z) (obs : list Z).
+| BoundCase (path : list (list Z)) (bind : list Z) (obs : list Z)
+  (* the <controller> element as read independently from the bytes (document namespace, numeric
+     table, ids of the loaded geometries) and what the implementation made of it *)
+| XmlCase (ns : atom) (nums : list Z) (geoms : list atom) (ctrl : xml) (code : nat) (obs : option loaded).
 
 Definition case_ok (c : case) : bool :=
   match c with
@@ -46,6 +49,14 @@ Definition case_ok (c : case) : bool :=
       end
   | BoundCase path bind obs =>
       lZ_eqb (mat_to_list (bound_skin_matrix (map zmat_of_list path) (zmat_of_list bind))) obs
+  | XmlCase ns nums geoms ctrl code obs =>
+      match load_controller ns nums geoms ctrl, obs with
+      | Ok (LSkin v), Some (LSkin w) => Nat.eqb code 0 && view_eqb v w
+      | Ok (LMorph b l), Some (LMorph b' l') =>
+          Nat.eqb code 0 && N.eqb b b' && (if list_eq_dec NZ_eq_dec l l' then true else false)
+      | Raise e, None => Nat.eqb code (exn_code e)
+      | _, _ => false
+      end
   end.
 
 Fixpoint mismatches_from (i : nat) (cs : list case) : list nat :=
